@@ -305,6 +305,12 @@ func opSpawn(g *G) (interface{}, []uint64, int, interface{}) {
 		start = cloneGenome(p.pick(g))
 		origin = "evolved"
 	}
+	// out-of-order start genomes (C03, fix 48b1f99): the plain reader keeps file order and Genome.verify does not look at
+	// gene order; the counters must still start above every number the genome holds
+	if len(start.ControlGenes) == 0 && g.chance(0.2) {
+		unsortGenome(g, start)
+		origin += "/unsorted"
+	}
 	before := dumpGenome(start)
 	var pop *genetics.Population
 	var err error
@@ -326,6 +332,26 @@ func opSpawn(g *G) (interface{}, []uint64, int, interface{}) {
 		out["genesis"] = popGenesisClass(pop)
 	}
 	return map[string]interface{}{"g": before, "opts": dumpEpochOpts(opts), "origin": origin}, stream, consumed, out
+}
+
+// unsortGenome lists the genes (and sometimes the nodes) of a genome out of order: the gene with the largest innovation
+// number is moved away from the end (to the front or into the middle), optionally the rest is shuffled
+func unsortGenome(g *G, gn *genetics.Genome) {
+	if n := len(gn.Genes); n >= 2 {
+		last := gn.Genes[n-1]
+		k := g.intn(n - 1)
+		copy(gn.Genes[k+1:], gn.Genes[k:n-1])
+		gn.Genes[k] = last
+		if g.chance(0.3) {
+			g.gr.Shuffle(n, func(i, j int) { gn.Genes[i], gn.Genes[j] = gn.Genes[j], gn.Genes[i] })
+		}
+	}
+	if n := len(gn.Nodes); n >= 2 && g.chance(0.4) {
+		last := gn.Nodes[n-1]
+		k := g.intn(n - 1)
+		copy(gn.Nodes[k+1:], gn.Nodes[k:n-1])
+		gn.Nodes[k] = last
+	}
 }
 
 // opSpeciate: a batch of organisms arriving in a random order into an existing (possibly empty) population
